@@ -12,6 +12,7 @@ import GPVerif.Bridge.Whitening
 import GPVerif.Bridge.ElboGlue
 import GPVerif.Bridge.GaussExpect
 import GPVerif.Bridge.NgdScalar
+import GPVerif.Bridge.NgdMatrix
 import Mathlib.Algebra.BigOperators.Field
 import Mathlib.Data.Finset.Powerset
 import Mathlib.Tactic.FieldSimp
@@ -421,6 +422,29 @@ theorem ngd_gradient_affine_scalar (a c s R tK nlog ξ₁ ξ₂ : ℝ) (hS : 0 <
       ∧ HasDerivAt (fun x => NgdScalar.F a c s R tK nlog ξ₁ x)
           (-(1 / 2) * (1 + c / s) - (-1 / (2 * (ξ₂ - ξ₁ ^ 2)))) ξ₂ :=
   ⟨NgdScalar.hasDerivAt_xi1 a c s R tK nlog ξ₁ ξ₂ hS, NgdScalar.hasDerivAt_xi2 a c s R tK nlog ξ₁ ξ₂ hS⟩
+
+open Matrix in
+/-- **ngd_gradient_affine** (general number `M` of inducing points).  `N·ELBO` of the conjugate model as a function of the
+expectation parameters `(ξ₁, ξ₂) = (μ, Σ + μμᵀ)` (`NgdMatrix.F`, with `a = B r`, `C = B Bᵀ` from the model's whitened
+blocks) has, at every point with `Σ = ξ₂ − ξ₁ξ₁ᵀ` positive definite, directional derivatives
+`(η₁* − η₁)·h` and `tr((η₂* − η₂) H)` with `η = (Σ⁻¹μ, −½Σ⁻¹)` the natural parameters of `q` and
+`η* = optNatural B r s` — i.e. the gradient with respect to the expectation parameters is `η* − η`, the hypothesis of
+`ngd_one_step_opt`.  Jacobi's formula is not assumed: the derivative of `log det` along the (quadratic) curve is proved
+from the polynomial expansion of the determinant (`Bridge/NgdMatrix.lean`). -/
+theorem ngd_gradient_affine (B : DMat M n ℝ) (r : DMat n 1 ℝ) (s R tK nlog : ℝ) (ξ₁ h : Fin M → ℝ)
+    (ξ₂ H : Matrix (Fin M) (Fin M) ℝ) (hSig : (ξ₂ - Matrix.vecMulVec ξ₁ ξ₁).PosDef) :
+    HasDerivAt (fun t : ℝ => NgdMatrix.F (ElboGlue.colVec (B.mul r)) (B.mul B.transpose).toMatrix s R tK nlog (ξ₁ + t • h) ξ₂)
+        ((ElboGlue.colVec (optNatural B r s).1 - (ξ₂ - Matrix.vecMulVec ξ₁ ξ₁)⁻¹ *ᵥ ξ₁) ⬝ᵥ h) 0
+      ∧ HasDerivAt (fun t : ℝ => NgdMatrix.F (ElboGlue.colVec (B.mul r)) (B.mul B.transpose).toMatrix s R tK nlog ξ₁ (ξ₂ + t • H))
+        ((((optNatural B r s).2.toMatrix - (-(1 / 2 : ℝ)) • (ξ₂ - Matrix.vecMulVec ξ₁ ξ₁)⁻¹) * H).trace) 0 := by
+  constructor
+  · refine (NgdMatrix.hasDerivAt_xi1 _ _ s R tK nlog ξ₁ h ξ₂ hSig).congr_deriv ?_
+    congr 2
+    funext i
+    simp [optNatural, ElboGlue.colVec, one_div]
+  · refine (NgdMatrix.hasDerivAt_xi2 _ _ s R tK nlog ξ₁ ξ₂ H hSig).congr_deriv ?_
+    congr 3
+    simp [optNatural, optPrec, one_div]
 
 end Integrals
 
